@@ -188,3 +188,46 @@ def s_nested_signature(ctx):
 
 
 SCENARIOS.append(Scenario("C02.converter.nested_signature", s_nested_signature, F("Converter._translate_function_signature_common")))
+
+
+def s_nested_function_def(ctx):
+    """_translate_nested_function_def: frame condition.  Translating a nested function (a Scan / SequenceMap body) must
+    leave the translation state of the ENCLOSING function as it was: the declared return types (used by the enclosing
+    function's return statement for the output count check and the output types), the current function, the scope
+    depth; the nested function is bound under its name and recorded."""
+    import onnx_ir as ir
+    from onnxscript._internal import values
+    I, self, top, state = world(ctx, set(), set())
+    C = CM._conv_cls()
+    outer_types = [None, ("FLOAT",), ("FLOAT", "INT64")][ctx.choose(3, "declared return types of the enclosing function")]
+    nested_types = [None, ("BOOL",), ("FLOAT", "FLOAT")][ctx.choose(3, "declared return types of the nested function")]
+    self.fields["returntype"] = outer_types
+    fn = SObj(ast.FunctionDef, "nested_def")
+    fn.fields.update(name="body", lineno=3, col_offset=4)
+    depth_before = len(self.fields["_locals"])
+    cur_before = self.fields["_current_fn"]
+
+    def m_common(interp, slf, f):
+        # callee contract (_translate_function_signature_common): returntype := declared types of f
+        slf.fields["returntype"] = nested_types
+        return slf.fields["_current_fn"]
+    I.models[C._translate_function_def_common] = m_common
+    an = self.fields["_analyzer"]
+
+    def f_outer(x):
+        raise AssertionError
+    I.models[f_outer] = lambda interp, x: []
+    an.fields["outer_scope_variables"] = f_outer
+    I.run_closure(I.closure_of(C._translate_nested_function_def), [self, fn], {})
+    ctx.check("C02.converter.nested_def.declared_return_types_of_the_enclosing_function_unchanged", self.fields["returntype"] == outer_types,
+              "C02: 'the resulting FunctionProto/ModelProto passes onnx.checker' — graph outputs get their declared types; "
+              "'A program ... is either refused ... or translated': the output-count check must use the enclosing function's annotation")
+    ctx.check("C02.converter.nested_def.scope_and_current_function_restored", len(self.fields["_locals"]) == depth_before and
+              self.fields["_current_fn"] is cur_before, CL_REF)
+    sv = self.fields["_locals"][-1].get("body")
+    val = sv.fields.get("value") if isinstance(sv, SObj) else getattr(sv, "value", None)
+    ctx.check("C02.converter.nested_def.function_bound_under_its_name", isinstance(val, FnStub) and val.name == "body" and
+              cur_before.nested_functions.get("body") is val, CL_REF)
+
+
+SCENARIOS.append(Scenario("C02.converter.nested_function_def", s_nested_function_def, F("Converter._translate_nested_function_def")))
